@@ -1,12 +1,12 @@
 SPECIFICATION Spec
 CONSTANTS
   Mode = "matrix"
-  ProtoSets <- QProtoSets
-  CodecSeqs <- QCodecSeqs
-  CompSeqs <- QCompSeqs
+  ProtoSets <- TProtoSets
+  CodecSeqs <- TCodecSeqs
+  CompSeqs <- TCompSeqs
   ClientForms <- QForms
-  ClientCodecs <- QCodecs
-  ClientComps <- QComps
+  ClientCodecs <- TCodecs
+  ClientComps <- TComps
   Methods <- QMethods
   MaxMsgs = 2
   EndCodes <- OkOnly
